@@ -290,3 +290,217 @@ pub fn crafted_stream(name: &str, w: u8, md: u8, ncells_md: u64) -> Vec<String> 
   v.push(format!("qty={}\ndepth={}\n", name, md));
   v
 }
+
+// ---------------------------------------------------------------------------------------------------
+// JSON (src/deser/json.rs) beside Model/JsonCodec.v from_json / st_from_json: the model covers a SUBSET
+// of JSON (answer OUT outside of it: no claim, counted); inside, verdict and decoded cells must agree.
+
+fn cells_str<T: Idx, I: Iterator<Item = moc::elem::cell::Cell<T>>>(it: I) -> String {
+  let v: Vec<String> = it.map(|c| format!("c {} {}", c.depth, c.idx.to_u64())).collect();
+  if v.is_empty() {
+    "0".to_string()
+  } else {
+    format!("{} {}", v.len(), v.join(" "))
+  }
+}
+
+pub fn impl_read_json_1d<T: Idx, Q: MocQty<T>>(s: &str) -> String {
+  use moc::deser::json::from_json_aladin;
+  use moc::moc::{CellMOCIntoIterator, CellMOCIterator};
+  let s1 = s.to_string();
+  let r = catch(move || match from_json_aladin::<T, Q>(&s1) {
+    Ok(m) => {
+      let d = m.depth_max();
+      let es = cells_str(m.into_cell_moc_iter());
+      let m2 = from_json_aladin::<T, Q>(&s1).unwrap();
+      let rg: Vec<(u64, u64)> = m2.into_cell_moc_iter().ranges().into_range_moc().moc_ranges().iter().map(|r| (r.start.to_u64(), r.end.to_u64())).collect();
+      format!("OK {} {} {}", d, es, ranges_str(&rg))
+    }
+    Err(_) => "ERR".to_string(),
+  });
+  match r {
+    Ok(x) => x,
+    Err(p) => p,
+  }
+}
+
+pub fn impl_read_json_2d(s: &str) -> String {
+  use moc::deser::json::cellmoc2d_from_json_aladin;
+  use moc::moc2d::{CellMOC2ElemIt, CellMOC2IntoIterator};
+  let s1 = s.to_string();
+  let r = catch(move || match cellmoc2d_from_json_aladin::<u64, Time<u64>, u64, Hpx<u64>>(&s1) {
+    Ok(m) => {
+      let (d1, d2) = (m.depth_max_1(), m.depth_max_2());
+      let mut out = Vec::new();
+      for e in m.into_cell_moc2_iter() {
+        let (l, r) = e.cell_mocs_it();
+        out.push(format!("{} {}", cells_str(l), cells_str(r)));
+      }
+      if out.is_empty() {
+        format!("OK {} {} 0", d1, d2)
+      } else {
+        format!("OK {} {} {} {}", d1, d2, out.len(), out.join(" "))
+      }
+    }
+    Err(_) => "ERR".to_string(),
+  });
+  match r {
+    Ok(x) => x,
+    Err(p) => p,
+  }
+}
+
+const JSON_ALPHABET: &[u8] = b"0123456789{}[]:,\" \n\t\r0123456789{}[]:,\"ts.e-x\\";
+
+/// structural mutations of a JSON document
+pub fn json_mutations(rng: &mut Rng, s: &str, n: usize) -> Vec<String> {
+  let b = s.as_bytes();
+  let mut out = Vec::new();
+  for _ in 0..n {
+    let mut v = b.to_vec();
+    let k = rng.below(8);
+    let pos = if v.is_empty() { 0 } else { rng.below(v.len() as u64) as usize };
+    let pick = |rng: &mut Rng| JSON_ALPHABET[rng.below(JSON_ALPHABET.len() as u64) as usize];
+    match k {
+      0 => {
+        if !v.is_empty() {
+          v.remove(pos);
+        }
+      }
+      1 => v.insert(pos, pick(rng)),
+      2 => {
+        if !v.is_empty() {
+          v[pos] = pick(rng);
+        }
+      }
+      3 => v.truncate(pos),
+      4 => {
+        // duplicate a "key": [ ... ] member (repeated key) or an element
+        if let (Some(a), Some(z)) = (s.find('"'), s.find(']')) {
+          if a < z {
+            let piece = format!("{}, ", &s[a..=z]);
+            let mut w: Vec<u8> = v[..a].to_vec();
+            w.extend_from_slice(piece.as_bytes());
+            w.extend_from_slice(&v[a..]);
+            v = w;
+          }
+        }
+      }
+      5 => {
+        // grow a number
+        if let Some(p) = v.iter().position(|c| c.is_ascii_digit()) {
+          let q = p + rng.below((v.len() - p) as u64) as usize;
+          if v[q].is_ascii_digit() {
+            v.insert(q, b'0' + rng.below(10) as u8);
+          }
+        }
+      }
+      6 => {
+        // a non-number element / a nested value in an array
+        if let Some(p) = v.iter().rposition(|c| *c == b'[') {
+          let ins: &[u8] = [&b"\"x\", "[..], &b"[1], "[..], &b"{\"0\": [2]}, "[..], &b"7, "[..]][rng.below(4) as usize];
+          let mut w: Vec<u8> = v[..=p].to_vec();
+          w.extend_from_slice(ins);
+          w.extend_from_slice(&v[p + 1..]);
+          v = w;
+        }
+      }
+      _ => {
+        // swap two characters
+        if v.len() >= 2 {
+          let j = rng.below(v.len() as u64) as usize;
+          v.swap(pos, j);
+        }
+      }
+    }
+    if v.is_ascii() {
+      out.push(String::from_utf8(v).unwrap());
+    }
+  }
+  out
+}
+
+pub fn crafted_json_1d(w: u8, md: u8, ncells_md: u64) -> Vec<String> {
+  let mut v: Vec<String> = vec![
+    "", " ", "{}", " { } ", "[]", "[1]", "1", "\"a\"", "{", "}", "{}{}", "{} x", "{},", "{\"0\":[]}", "{\"0\":[0]}", "{\"0\":[0,]}", "{\"0\":[,0]}", "{\"0\":[0 1]}",
+    "{\"0\":[0],}", "{\"0\" [0]}", "{\"0\":}", "{\"0\"}", "{0:[1]}", "{\"0\":[0]", "{\"0\":[0}", "{\"0\":[01]}", "{\"0\":[00]}", "{\"0\":[0.0]}", "{\"0\":[1e0]}", "{\"0\":[-1]}",
+    "{\"0\":[1,1]}", "{\"0\":[1],\"1\":[4]}", "{\"0\":[1],\"1\":[3]}", "{\"1\":[4],\"0\":[1]}", "{\"1\":[3,2,1,0]}", "{\"0\":[1],\"0\":[2]}", "{\"0\":[1],\"0\":3}", "{\"0\":3,\"0\":[1]}",
+    "{\"0\":[1,\"x\",2]}", "{\"0\":[1,[5],2]}", "{\"0\":[1,{\"0\":[5]},2]}", "{\"00\":[1]}", "{\"+0\":[1]}", "{\" 0\":[1]}", "{\"x\":[99999],\"0\":[1]}", "{\"0\":{\"0\":[1]}}", "{\"0\":\"1\"}",
+    "{\"0\":[11]}", "{\"0\":[12]}", "{\"1\":[47]}", "{\"1\":[48]}", "{\"0\":[18446744073709551615]}", "{\"0\":[18446744073709551616]}", "{\"300\":[1]}", "{\"255\":[1]}", "{\"0\":[1]}\n\n", "\t{\r\n\"0\"\t:\r[ 1 ,\n2 ]\n}\t",
+    "{\"0\":[1],\"x\":[[[[[[[[[[1]]]]]]]]]]}", "{\"0\":[1],\"a\\\"b\":[2]}", "{\"0\":[1],\"a\\u0030\":[2]}", "{\"\\u0030\":[1]}", "{\"0\":[true]}", "{\"0\":[null,1]}",
+  ]
+  .into_iter()
+  .map(|x| x.to_string())
+  .collect();
+  v.push(format!("{{\"{}\":[]}}", md));
+  v.push(format!("{{\"{}\":[]}}", md as u32 + 1));
+  v.push(format!("{{\"{}\":[5]}}", md as u32 + 1));
+  v.push(format!("{{\"{}\":[{}]}}", md, ncells_md - 1));
+  v.push(format!("{{\"{}\":[{}]}}", md, ncells_md));
+  v.push(format!("{{\"{}\":[0],\"{}\":[1]}}", md, md));
+  v.push(format!("{{\"{}\":[0],\"{}\":[]}}", md - 1, md));
+  v.push(format!("{{\"0\":[0],\"{}\":[0]}}", md));
+  v.push(format!("{{\"0\":[0],\"{}\":[{}]}}", md, ncells_md - 1));
+  let _ = w;
+  // deep nesting: beyond the model's subset (100) and beyond serde_json's recursion limit (128)
+  v.push(format!("{{\"x\":{}1{}}}", "[".repeat(99), "]".repeat(99)));
+  v.push(format!("{{\"x\":{}1{}}}", "[".repeat(120), "]".repeat(120)));
+  v.push(format!("{{\"x\":{}1{}}}", "[".repeat(200), "]".repeat(200)));
+  v
+}
+
+pub fn crafted_json_2d() -> Vec<String> {
+  vec![
+    "", "[]", " [ ] ", "{}", "[{}]", "[1]", "[[]]", "[{\"t\":{},\"s\":{}}]", "[{\"t\":{\"61\":[1]},\"s\":{\"29\":[2]}}]", "[{\"t\":{\"61\":[1]},\"s\":{\"29\":[]}}]", "[{\"t\":{\"61\":[]},\"s\":{\"29\":[2]}}]",
+    "[{\"t\":{\"61\":[1]}}]", "[{\"s\":{\"29\":[2]}}]", "[{\"t\":{\"61\":[1]},\"s\":[2]}]", "[{\"t\":1,\"s\":{\"29\":[2]}}]", "[{\"t\":{\"62\":[1]},\"s\":{\"30\":[2]}}]", "[{\"t\":{\"0\":[2]},\"s\":{\"0\":[1]}}]", "[{\"t\":{\"0\":[1]},\"s\":{\"0\":[12]}}]",
+    "[{\"t\":{\"1\":[1]},\"s\":{\"0\":[1]}},{\"t\":{\"2\":[1]},\"s\":{\"3\":[1]}}]", "[{\"t\":{\"1\":[1]},\"s\":{\"0\":[1]}},{\"t\":{\"1\":[1]},\"s\":{\"0\":[1]}}]", "[{\"t\":{\"1\":[1]},\"s\":{\"0\":[1]}},7]", "[7,{\"t\":{\"1\":[1]},\"s\":{\"0\":[1]}}]",
+    "[{\"t\":{\"1\":[1]},\"s\":{\"0\":[1]},\"t\":{\"2\":[2]}}]", "[{\"x\":5,\"t\":{\"1\":[1]},\"s\":{\"0\":[1]}}]", "[{\"t\":{\"1\":[1,1]},\"s\":{\"0\":[1]}}]", "[{\"t\":{\"1\":[1]},\"s\":{\"0\":[1]}},]", "[{\"t\":{\"1\":[1]},\"s\":{\"0\":[1]}}]]",
+    "[{\"tt\":{\"1\":[1]},\"s\":{\"0\":[1]}}]", "[{\"f\":{\"1\":[1]},\"s\":{\"0\":[1]}}]", "[\n{\n  \"t\": {\n    \"3\": [1, \n    2]\n  },\n  \"s\": {\n    \"1\": [5]\n  }\n},\n{ \"t\": { \"61\": [] }, \"s\": { \"29\": [] } }\n]\n",
+  ]
+  .into_iter()
+  .map(|x| x.to_string())
+  .collect()
+}
+
+/// model reader vs implementation reader on one 1-D JSON document; false = they differ
+pub fn compare_reader_json_1d<T: Idx, Q: MocQty<T>>(rep: &mut Report, orc: &mut Oracle, qc: &str, w: u8, s: &str, origin: &str) -> bool {
+  rep.evaluations += 1;
+  let model = orc.ask(&format!("JSONR {} {} {}", qc, w, hex(s.as_bytes())));
+  rep.count(&format!("json-reader:{}:{}", origin, if model.starts_with("OK") { "accepted" } else { model.as_str() }));
+  if model == "OUT" {
+    return true;
+  }
+  let got = impl_read_json_1d::<T, Q>(s);
+  if got != model {
+    rep.corr_break(
+      "from_json_aladin differs from the character-level model of the reader",
+      &format!("JSONR {} {} {} # document={:?} origin={}", qc, w, hex(s.as_bytes()), s, origin),
+      &got,
+      &model,
+      "src/deser/json.rs from_json_aladin == Model/JsonCodec.v from_json (C07_json_roundtrip)",
+    );
+    return false;
+  }
+  true
+}
+
+pub fn compare_reader_json_2d(rep: &mut Report, orc: &mut Oracle, s: &str, origin: &str) -> bool {
+  rep.evaluations += 1;
+  let model = orc.ask(&format!("JSON2R {}", hex(s.as_bytes())));
+  rep.count(&format!("json2-reader:{}:{}", origin, if model.starts_with("OK") { "accepted" } else { model.as_str() }));
+  if model == "OUT" {
+    return true;
+  }
+  let got = impl_read_json_2d(s);
+  if got != model {
+    rep.corr_break(
+      "cellmoc2d_from_json_aladin differs from the character-level model of the reader",
+      &format!("JSON2R {} # document={:?} origin={}", hex(s.as_bytes()), s, origin),
+      &got,
+      &model,
+      "src/deser/json.rs cellmoc2d_from_json_aladin == Model/JsonCodec.v st_from_json (C11_json_st_roundtrip)",
+    );
+    return false;
+  }
+  true
+}
